@@ -1,0 +1,72 @@
+//! Read-only accessors (plus a flags setter) used by the external verification harness.
+//! Compiled only with `--cfg ax_verif`; nothing in the crate itself calls into this module.
+#![cfg(ax_verif)]
+
+use crate::axecutor::Axecutor;
+use crate::helpers::trace::TraceVariant;
+
+impl Axecutor {
+    pub fn verif_rflags(&self) -> u64 {
+        self.state.rflags
+    }
+
+    pub fn verif_set_rflags(&mut self, v: u64) {
+        self.state.rflags = v;
+    }
+
+    pub fn verif_finished(&self) -> bool {
+        self.state.finished
+    }
+
+    pub fn verif_executed(&self) -> u64 {
+        self.state.executed_instructions_count
+    }
+
+    pub fn verif_max_instructions(&self) -> Option<u64> {
+        self.state.max_instructions
+    }
+
+    pub fn verif_code_end(&self) -> u64 {
+        self.code_end_addr
+    }
+
+    pub fn verif_stack_top(&self) -> u64 {
+        self.stack_top
+    }
+
+    pub fn verif_hooks_running(&self) -> bool {
+        self.hooks.running
+    }
+
+    /// (instr_ip, target, variant: 0 = call, 1 = return, 2 = jump, level, count)
+    pub fn verif_trace(&self) -> Vec<(u64, u64, u8, i16, u64)> {
+        self.state
+            .trace
+            .iter()
+            .map(|e| {
+                (
+                    e.instr_ip,
+                    e.target,
+                    match e.variant {
+                        TraceVariant::Call => 0u8,
+                        TraceVariant::Return => 1u8,
+                        TraceVariant::Jump => 2u8,
+                    },
+                    e.level,
+                    e.count,
+                )
+            })
+            .collect()
+    }
+
+    pub fn verif_call_stack(&self) -> Vec<u64> {
+        self.state.call_stack.clone()
+    }
+
+    pub fn verif_symbols(&self) -> Vec<(u64, String)> {
+        self.symbol_table
+            .iter()
+            .map(|(a, s)| (*a, s.clone()))
+            .collect()
+    }
+}
